@@ -62,7 +62,8 @@ Deliverables, all inside %(wt)s/SEED/ (create the directory):
                         "demo_pkg": "<package dir relative to repo root>", "demo_run": "<test name regex>",
                         "demo_tags": "<build tags needed or empty>", "existing_tests_run": ["<command -> result>", ...],
                         "demo_result_with_change": "...", "demo_result_without_change": "..."}
-Leave the worktree in place (with your change applied) when you finish; remove any large build output you created elsewhere.
+Leave the worktree in place (with your change applied) when you finish. NEVER run `go clean` (the Go build cache is shared
+with other people's running builds); there is nothing else to clean up.
 Your final reply: a 10-line summary (what, where, needs, demo name, tests run). Do not spend more than about 40 minutes;
 if a candidate is killed by an existing test, pick another rather than weakening requirement 1.""" % dict(
     wt=wt, pid=pid, title=prop.get("title", ""), stmt=prop.get("statement", ""), anch=json.dumps(anch)[:900],
